@@ -819,15 +819,20 @@ class Evolution(pg.DNAGenerator):
         if is_initial_population(dna):
           init_population.append((dna, reward))
 
-      # Recover `self.num_generations`.
+      # Recover `self.num_generations`. (The initial population is proposed
+      # as generation 1 while `num_generations` is still 0; it becomes 1 once
+      # the population is initialized.)
       generation_id = get_generation_id(dna)
-      if generation_id > self.num_generations:
+      if (not is_initial_population(dna)
+          and generation_id > self.num_generations):
         self._global_state.num_generations = generation_id
 
     # Recover the state of the population initializer.
     if (self._init_population_size is not None
         and len(init_population) >= self._init_population_size):
       self._population_initialized = True
+    if self._population_initialized and self.num_generations == 0:
+      self._global_state.num_generations = 1
     self._init_population_generator.recover(init_population)
 
 
